@@ -3,6 +3,7 @@
 package props
 
 import (
+	"encoding/binary"
 	"context"
 	"github.com/docker/docker/errdefs"
 	"net"
@@ -141,6 +142,22 @@ func applyFault(fd *FakeDocker, inv []CSpec, f c14Fault) func() bool {
 		}
 	case "frame":
 		frames := append([]Frame(nil), inv[f.Container].Frames...)
+		if f.FrameKind == "oversize-header" {
+			// a header declaring far more bytes than the stream delivers (a flipped bit in the size field,
+			// a connection cut inside a very long line): the stream ends inside that frame
+			data := EncodeFrames(frames[:f.At])
+			var h [8]byte
+			h[0] = frames[f.At].Type
+			binary.BigEndian.PutUint32(h[4:], uint32(300000+f.At*70000))
+			data = append(append(data, h[:]...), frames[f.At].payload()...)
+			fd.Containers[f.Container].Stream = data
+			id := inv[f.Container].ID
+			return func() bool {
+				fd.L.mu.Lock()
+				defer fd.L.mu.Unlock()
+				return fd.L.eof[id]
+			}
+		}
 		switch f.FrameKind {
 		case "daemon-error":
 			frames[f.At] = Frame{Type: 3, Raw: "daemon says no"}
@@ -263,7 +280,7 @@ func runC14(r *vk.Run) {
 					for at := starts[k] + 8; at < ends[k]; at++ {
 						faults = append(faults, c14Fault{Kind: "trunc", Container: i, At: at})
 					}
-					for _, fk := range []string{"daemon-error", "bad-timestamp", "no-space"} {
+					for _, fk := range []string{"daemon-error", "bad-timestamp", "no-space", "oversize-header"} {
 						faults = append(faults, c14Fault{Kind: "frame", Container: i, At: k, FrameKind: fk})
 					}
 				}
